@@ -151,6 +151,7 @@ class Module:
         self.out: list[str] = []
         self.imports = imports or []
         self.entries: list[tuple[str, FuncInfo]] = []   # for the dispatch table
+        self.int_arg_funcs: dict[str, str] = {}
         self.validators: dict[str, str] = {}            # T9: python name of a translated validator -> Lean name
         for m in self.imports:
             self.consts.update({})   # imported constants are looked up lazily
@@ -817,6 +818,305 @@ class Module:
         self.out.append(indent(code, 1))
         self.out.append("")
         self.funcs[f"{cls}.{name}" if cls else name] = FuncInfo(f"{self.ns}.{lean_name}", ["obj"] * len(params), "unit", True)
+
+    # -- T12: integer-argument converters over the kinds of object a caller can pass ---------------------------------------
+    def translate_int_arg_function(self, name: str, lean_name: str) -> None:
+        """T12: `arg_to_int` / `arg_to_uint` (nitypes/_arguments.py) over `Py.IntArg`, the kinds of object Python distinguishes
+        where an integer is accepted (None, exact int, bool, other int subclass, NumPy integer, other `__index__` object,
+        int()-convertible non-integer, anything else).  Parameters: (description, value, default_value); `value` is the only
+        variable that is ever assigned; `default_value` is an exact int or None.
+
+        Statements:  `if C: <block> [else: <block>]`, `value = E`, `return E`, `raise <known factory>(...)`,
+                     `try: return E` + `except Exception: raise <known factory>(...)`.
+        Expressions: `value`, `default_value`, `operator.index(value)`, `int(value)`, `<translated converter>(d, value, default_value)`.
+        Conditions:  not / and / or; `value is None`, `default_value is None` (and `is not`); `isinstance(value, K)` with K among
+                     int, bool, np.integer or a tuple of them; `type(value) is int`; `value < c` / `value >= c` (may raise: objects
+                     without an order).  Anything else is Untranslatable (closed subset)."""
+        fn = self.find_func(None, name)
+        body = [st for st in fn.body if not (isinstance(st, ast.Expr) and isinstance(st.value, ast.Constant))]
+        allp = [a.arg for a in fn.args.posonlyargs + fn.args.args]
+        if allp[1:] != ["value", "default_value"]:
+            raise Untranslatable(f"{name}: parameters {allp}, expected (description, value, default_value)", fn, self.path)
+        KINDS = {"int": "isInt", "bool": "isBool", "np.integer": "isNp"}
+
+        def fail(msg, node):
+            raise Untranslatable(f"{name}: {msg}", node, self.path)
+
+        def is_name(e, n):
+            return isinstance(e, ast.Name) and e.id == n
+
+        def obj(e) -> tuple[str, bool]:
+            """(term, raises): term : Py.IntArg, or Except PyErr Py.IntArg when raises"""
+            if is_name(e, "value"):
+                return "value", False
+            if is_name(e, "default_value"):
+                return "(Py.IntArg.ofDefault default_value)", False
+            if isinstance(e, ast.Call) and not e.keywords:
+                f = ast.unparse(e.func)
+                if f == "operator.index" and len(e.args) == 1 and is_name(e.args[0], "value"):
+                    return "(Py.IntArg.index value)", True
+                if f == "int" and len(e.args) == 1 and is_name(e.args[0], "value"):
+                    return "(Py.IntArg.toInt value)", True
+                if f in self.int_arg_funcs and len(e.args) == 3 and is_name(e.args[1], "value") and is_name(e.args[2], "default_value"):
+                    return f"({self.int_arg_funcs[f]} value default_value)", True
+            fail(f"unsupported expression {ast.unparse(e)[:80]}", e)
+
+        def cond(e, k) -> str:
+            """k(prop) -> term; conditions that can raise are bound first"""
+            if isinstance(e, ast.UnaryOp) and isinstance(e.op, ast.Not):
+                return cond(e.operand, lambda p: k(f"¬ ({p})"))
+            if isinstance(e, ast.BoolOp):
+                # short-circuit: a later operand is evaluated (and may raise) only when the earlier ones do not decide
+                op_and = isinstance(e.op, ast.And)
+
+                def go(vals, acc):
+                    if not vals:
+                        return k(acc)
+                    v, rest = vals[0], vals[1:]
+                    if pure(v):
+                        p = cond(v, lambda p: p)
+                        return go(rest, p if acc is None else f"({acc}) {'∧' if op_and else '∨'} ({p})")
+                    fail("an operand that can raise inside and/or", v)
+                return go(e.values, None)
+            if isinstance(e, ast.Compare) and len(e.ops) == 1:
+                l, op, r = e.left, e.ops[0], e.comparators[0]
+                if isinstance(r, ast.Constant) and r.value is None and isinstance(op, (ast.Is, ast.IsNot)) and isinstance(l, ast.Name) \
+                        and l.id in ("value", "default_value"):
+                    p = f"{l.id}.isNone = true"
+                    return k(p if isinstance(op, ast.Is) else f"¬ ({p})")
+                if isinstance(op, ast.Is) and ast.unparse(l) == "type(value)" and is_name(r, "int"):
+                    return k("value.isExactInt = true")
+                if is_name(l, "value") and isinstance(r, ast.Constant) and type(r.value) is int and isinstance(op, (ast.Lt, ast.GtE)):
+                    p = "c = true" if isinstance(op, ast.Lt) else "c = false"
+                    return f"Except.bind (Py.IntArg.ltInt value {lit(r.value)}) (fun c =>\n{indent(k(p), 1)})"
+            if isinstance(e, ast.Call) and ast.unparse(e.func) == "isinstance" and len(e.args) == 2 and is_name(e.args[0], "value") and not e.keywords:
+                ks = e.args[1].elts if isinstance(e.args[1], ast.Tuple) else [e.args[1]]
+                preds = []
+                for x in ks:
+                    key = ast.unparse(x)
+                    if key not in KINDS:
+                        fail(f"isinstance against unknown kind {key}", x)
+                    preds.append(f"value.{KINDS[key]} = true")
+                return k(preds[0] if len(preds) == 1 else "(" + " ∨ ".join(preds) + ")")
+            fail(f"unsupported condition {ast.unparse(e)[:80]}", e)
+
+        def pure(e) -> bool:
+            return not any(isinstance(x, ast.Compare) and isinstance(x.ops[0], (ast.Lt, ast.GtE, ast.Gt, ast.LtE)) for x in ast.walk(e))
+
+        def error_of(st: ast.Raise) -> str:
+            exc = st.exc
+            nm = ast.unparse(exc.func).split(".")[-1] if isinstance(exc, ast.Call) else None
+            if nm not in ERROR_FACTORIES:
+                fail(f"raise of unknown error {ast.unparse(exc)[:60] if exc else ''}", st)
+            return f"Except.error PyErr.{ERROR_FACTORIES[nm]}"
+
+        def stmts(ss: list[ast.stmt], fall: str | None) -> str:
+            """term : Except PyErr Py.IntArg; `fall` is what falling off the end of the block means (None at top level: the function
+            would return None, which no converter may do)"""
+            if not ss:
+                if fall is None:
+                    fail("a path falls off the end of the function", fn)
+                return fall
+            st, rest = ss[0], ss[1:]
+            if isinstance(st, ast.Raise):
+                return error_of(st)
+            if isinstance(st, ast.Return):
+                if st.value is None:
+                    fail("bare return", st)
+                t, raises = obj(st.value)
+                return t if raises else f"Except.ok {t}"
+            if isinstance(st, ast.Assign) and len(st.targets) == 1 and is_name(st.targets[0], "value"):
+                t, raises = obj(st.value)
+                k = stmts(rest, fall)
+                if raises:
+                    return f"Except.bind {t} (fun value =>\n{indent(k, 1)})"
+                return f"let value : Py.IntArg := {t}\n{k}"
+            if isinstance(st, ast.Try):
+                if (len(st.body) == 1 and isinstance(st.body[0], ast.Return) and st.body[0].value is not None and len(st.handlers) == 1
+                        and not st.orelse and not st.finalbody and st.handlers[0].type is not None
+                        and ast.unparse(st.handlers[0].type) == "Exception" and len(st.handlers[0].body) == 1
+                        and isinstance(st.handlers[0].body[0], ast.Raise)):
+                    t, raises = obj(st.body[0].value)
+                    if not raises:
+                        return f"Except.ok {t}"
+                    return f"(match {t} with\n  | Except.ok r => Except.ok r\n  | Except.error _ => {error_of(st.handlers[0].body[0])})"
+                fail("unsupported try statement", st)
+            if isinstance(st, ast.If):
+                def leaves(block) -> bool:
+                    if not block:
+                        return False
+                    last = block[-1]
+                    if isinstance(last, (ast.Return, ast.Raise)):
+                        return True
+                    if isinstance(last, ast.If):
+                        return leaves(last.body) and leaves(last.orelse)
+                    if isinstance(last, ast.Try):
+                        return leaves(last.body) and all(leaves(h.body) for h in last.handlers) and not last.orelse and not last.finalbody
+                    return False
+
+                def branch(block):
+                    if leaves(block):
+                        return stmts(block, None), True
+                    return stmts(block, "Except.ok value"), False
+                tb, tt = branch(st.body)
+                eb, et = branch(st.orelse) if st.orelse else ("Except.ok value", False)
+                if tt and (et and st.orelse):
+                    if rest:
+                        fail("statements after an if whose branches all leave", rest[0])
+                    return cond(st.test, lambda p: f"if {p} then\n{indent(tb, 1)}\nelse\n{indent(eb, 1)}")
+                k = stmts(rest, fall)
+                if tt:       # then-branch leaves, the rest is the else path (with the else block's assignments, if any)
+                    if st.orelse:
+                        return cond(st.test, lambda p: f"if {p} then\n{indent(tb, 1)}\nelse\n" + indent(f"Except.bind ({eb}) (fun value =>\n{indent(k, 1)})", 1))
+                    return cond(st.test, lambda p: f"if {p} then\n{indent(tb, 1)}\nelse\n{indent(k, 1)}")
+                if et and st.orelse:
+                    return cond(st.test, lambda p: f"if {p} then\n" + indent(f"Except.bind ({tb}) (fun value =>\n{indent(k, 1)})", 1) + f"\nelse\n{indent(eb, 1)}")
+                joined = cond(st.test, lambda p: f"if {p} then\n{indent(tb, 1)}\nelse\n{indent(eb, 1)}")
+                return f"Except.bind ({joined}) (fun value =>\n{indent(k, 1)})"
+            fail(f"unsupported statement {ast.unparse(st)[:80]}", st)
+
+        code = stmts(body, None)
+        self.out.append(f"/-- generated from `{name}` ({self.path.split('/src/')[-1]}) -/")
+        self.out.append(f"@[pygen] def {lean_name} (value : Py.IntArg) (default_value : Option Int) : Except PyErr Py.IntArg :=")
+        self.out.append(indent(code, 1))
+        self.out.append("")
+        self.int_arg_funcs[name] = lean_name
+
+    # -- T13: methods of a list-backed container over argument objects ---------------------------------------------------------
+    def translate_list_method(self, cls: str, name: str, lean_name: str, index_is_int: bool = False) -> None:
+        """T13: `Vector.__setitem__` / `insert` / `__delitem__` (nitypes/vector.py): checks on the argument objects followed by ONE
+        operation on the backing list `self._values`, over `Model.Vector.Arg` / `Index` / `Item`.
+
+        Statements:  `if C: <block> [elif …] [else: <block>]`; `raise TypeError(...)` / `raise self.<factory>(x)` (a method whose body
+                     is `return <Error>(...)`); `value = list(value)`; `for x in value:` + `if C(x): raise …` (the whole body);
+                     and, as the last statement of every path that does not raise, exactly one of
+                     `self._values[index] = value`, `self._values.insert(index, value)`, `del self._values[index]`.
+        Conditions:  not / and / or; `isinstance(index, slice)`; `isinstance(value, Iterable | str | self._value_type)`;
+                     `isinstance(x, self._value_type)` for the loop variable.  Anything else is Untranslatable (closed subset)."""
+        fn = self.find_func(cls, name)
+        body = [st for st in fn.body if not (isinstance(st, ast.Expr) and isinstance(st.value, ast.Constant))]
+        allp = [a.arg for a in fn.args.posonlyargs + fn.args.args][1:]
+        if allp not in (["index", "value"], ["index"]):
+            raise Untranslatable(f"{name}: parameters {allp}", fn, self.path)
+
+        def fail(msg, node):
+            raise Untranslatable(f"{cls}.{name}: {msg}", node, self.path)
+
+        def is_name(e, n):
+            return isinstance(e, ast.Name) and e.id == n
+
+        def error_of(st: ast.Raise) -> str:
+            exc = st.exc
+            if isinstance(exc, ast.Call):
+                f = ast.unparse(exc.func)
+                if f in ERROR_FACTORIES:
+                    return f"PyErr.{ERROR_FACTORIES[f]}"
+                if f.startswith("self."):
+                    helper = self.find_func(cls, f[5:])
+                    hb = [x for x in helper.body if not (isinstance(x, ast.Expr) and isinstance(x.value, ast.Constant))]
+                    if len(hb) == 1 and isinstance(hb[0], ast.Return) and isinstance(hb[0].value, ast.Call) \
+                            and ast.unparse(hb[0].value.func) in ERROR_FACTORIES:
+                        return f"PyErr.{ERROR_FACTORIES[ast.unparse(hb[0].value.func)]}"
+            fail(f"raise of unknown error {ast.unparse(exc)[:60] if exc else ''}", st)
+
+        def cond(e, loopvar=None) -> str:
+            if isinstance(e, ast.UnaryOp) and isinstance(e.op, ast.Not):
+                return f"¬ ({cond(e.operand, loopvar)})"
+            if isinstance(e, ast.BoolOp):
+                j = " ∧ " if isinstance(e.op, ast.And) else " ∨ "     # every operand is total here
+                return "(" + j.join(f"({cond(v, loopvar)})" for v in e.values) + ")"
+            if isinstance(e, ast.Call) and ast.unparse(e.func) == "isinstance" and len(e.args) == 2 and not e.keywords:
+                who, what = e.args[0], ast.unparse(e.args[1])
+                if is_name(who, "index") and what == "slice" and not index_is_int:
+                    return "index.isSlice = true"
+                if is_name(who, "value") and "value" in allp:
+                    if what == "Iterable":
+                        return "value.isIterable = true"
+                    if what == "str":
+                        return "value.isStr = true"
+                    if what == "self._value_type":
+                        return "value.instOf vtype = true"
+                if loopvar and is_name(who, loopvar) and what == "self._value_type":
+                    return f"Model.Vector.itemInstOf {loopvar} vtype = true"
+            fail(f"unsupported condition {ast.unparse(e)[:80]}", e)
+
+        def leaves(block) -> bool:
+            """every path through the block ends in a raise or in the final list operation"""
+            if not block:
+                return False
+            last = block[-1]
+            if isinstance(last, ast.Raise) or terminal(last) is not None:
+                return True
+            if isinstance(last, ast.If):
+                return leaves(last.body) and leaves(last.orelse)
+            return False
+
+        def terminal(st) -> str | None:
+            if isinstance(st, ast.Assign) and len(st.targets) == 1 and ast.unparse(st.targets[0]) == "self._values[index]" \
+                    and is_name(st.value, "value") and not index_is_int:
+                return "Model.Vector.store values index value"
+            if isinstance(st, ast.Expr) and isinstance(st.value, ast.Call) and ast.unparse(st.value.func) == "self._values.insert" \
+                    and len(st.value.args) == 2 and is_name(st.value.args[0], "index") and is_name(st.value.args[1], "value") and index_is_int:
+                return "Except.ok (Py.ListSpec.insert values index value.asItem)"
+            if isinstance(st, ast.Delete) and len(st.targets) == 1 and ast.unparse(st.targets[0]) == "self._values[index]" and not index_is_int:
+                return "Model.Vector.delIndex values index"
+            return None
+
+        def stmts(ss: list[ast.stmt], fall: str | None) -> str:
+            if not ss:
+                if fall is None:
+                    fail("a path ends without an operation on self._values", fn)
+                return fall
+            st, rest = ss[0], ss[1:]
+            if isinstance(st, ast.Raise):
+                return f"Except.error {error_of(st)}"
+            t = terminal(st)
+            if t is not None:
+                if rest:
+                    fail("statements after the operation on self._values", rest[0])
+                return t
+            if isinstance(st, ast.Assign) and len(st.targets) == 1 and is_name(st.targets[0], "value") and ast.unparse(st.value) == "list(value)":
+                return f"Except.bind value.toList (fun value =>\n{indent(stmts(rest, fall), 1)})"
+            if isinstance(st, ast.For) and isinstance(st.target, ast.Name) and is_name(st.iter, "value") and not st.orelse \
+                    and len(st.body) == 1 and isinstance(st.body[0], ast.If) and not st.body[0].orelse \
+                    and len(st.body[0].body) == 1 and isinstance(st.body[0].body[0], ast.Raise):
+                v = st.target.id
+                c = cond(st.body[0].test, loopvar=v)
+                return (f"Except.bind (Model.Vector.forAllItems value (fun {v} => decide ({c})) {error_of(st.body[0].body[0])}) (fun _ =>\n"
+                        f"{indent(stmts(rest, fall), 1)})")
+            if isinstance(st, ast.If):
+                def branch(block):
+                    if leaves(block):
+                        return stmts(block, None), True
+                    return stmts(block, "Except.ok value"), False
+                tb, tt = branch(st.body)
+                eb, et = branch(st.orelse) if st.orelse else ("Except.ok value", False)
+                c = cond(st.test)
+                if tt and et:
+                    if rest:
+                        fail("statements after an if whose branches all leave", rest[0])
+                    return f"if {c} then\n{indent(tb, 1)}\nelse\n{indent(eb, 1)}"
+                if "value" not in allp:
+                    fail("an if that falls through in a method without a value", st)
+                k = stmts(rest, fall)
+                if tt:
+                    if eb == "Except.ok value":
+                        return f"if {c} then\n{indent(tb, 1)}\nelse\n{indent(k, 1)}"
+                    return f"if {c} then\n{indent(tb, 1)}\nelse\n" + indent(f"Except.bind ({eb}) (fun value =>\n{indent(k, 1)})", 1)
+                if et:
+                    if tb == "Except.ok value":
+                        return f"if {c} then\n{indent(k, 1)}\nelse\n{indent(eb, 1)}"
+                    return f"if {c} then\n" + indent(f"Except.bind ({tb}) (fun value =>\n{indent(k, 1)})", 1) + f"\nelse\n{indent(eb, 1)}"
+                return f"Except.bind (if {c} then\n{indent(tb, 1)}\nelse\n{indent(eb, 1)}) (fun value =>\n{indent(k, 1)})"
+            fail(f"unsupported statement {ast.unparse(st)[:80]}", st)
+
+        code = stmts(body, None)
+        ps = "(vtype : Model.Vector.VT) (values : List Model.Vector.Item) " + ("(index : Int)" if index_is_int else "(index : Model.Vector.Index)") \
+            + (" (value : Model.Vector.Arg)" if "value" in allp else "")
+        self.out.append(f"/-- generated from `{cls}.{name}` ({self.path.split('/src/')[-1]}): the new `_values`, or the exception -/")
+        self.out.append(f"@[pygen] def {lean_name} {ps} : Except PyErr (List Model.Vector.Item) :=")
+        self.out.append(indent(code, 1))
+        self.out.append("")
 
     # -- T10: generator loops over time values of one family ------------------------------------------------------------
     def translate_timestamp_generator(self, cls: str, name: str, lean_name: str, attr_types: dict[str, tuple[str, str]],
